@@ -22,8 +22,9 @@ def sh(cmd, cwd=None, timeout=None, env=None):
 def setup():
     shutil.rmtree(WORK, ignore_errors=True)
     os.makedirs(WORK)
-    sh("rsync -a --exclude target --exclude .git /repo/ %s/repo/" % WORK)
-    sh("cd %s/repo && git init -q && git add -A && git -c user.email=a@b -c user.name=x commit -qm base" % WORK)
+    # a clone (with history, so that patches made against an earlier fix commit can be applied 3-way)
+    assert sh("git status --short", "/repo")[1].strip() == "", "/repo is not clean"
+    sh("git clone -q /repo %s/repo" % WORK)
     sh("rsync -a --exclude seeded --exclude .git --exclude replays --exclude evidence %s/ %s/verif/" % (ROOT, WORK))
     os.makedirs(WORK + "/verif/evidence", exist_ok=True)
     p = WORK + "/verif/mc/Cargo.toml"
@@ -48,6 +49,8 @@ def main():
         meta = json.load(open(d + "/meta.json"))
         rc, o = sh("git apply %s/patch.diff" % d, WORK + "/repo")
         if rc != 0:
+            rc, o = sh("git apply --3way %s/patch.diff" % d, WORK + "/repo")
+        if rc != 0:
             print(n, "patch does not apply to the current tree:", o[-200:])
             meta["current"] = {"result": "patch-does-not-apply", "at": time.strftime("%Y-%m-%d %H:%M")}
             json.dump(meta, open(d + "/meta.json", "w"), indent=1)
@@ -56,7 +59,7 @@ def main():
         try:
             rc, o = sh("scripts/check.sh %s quick" % prop, WORK + "/verif", timeout=3600, env=env)
         finally:
-            sh("git checkout -- . && git clean -fdq", WORK + "/repo")
+            sh("git reset -q --hard HEAD && git clean -fdq", WORK + "/repo")
         cls = [l.strip()[7:].strip() for l in o.splitlines() if l.strip().startswith("class:")]
         res = "DETECTED" if rc == 1 else ("missed" if rc == 0 else "machinery-exit-%d" % rc)
         meta["current"] = {"check": prop, "tier": "quick", "result": res, "classes": cls[:4], "wall_s": round(time.time() - t0, 1), "at": time.strftime("%Y-%m-%d %H:%M")}
